@@ -71,6 +71,8 @@ STATEMENT_STATUS: Dict[str, str] = {
     "C02_trailer_line": "proved (round 2)",
     "C02_stream_load / C02_stream_load_default": "proved (round 2): PDFXRefStream.load + get_pos + get_objids end to end incl. /Index default",
     "C02_chain_order": "proved (round 2): table -> XRefStm -> Prev, circular Prev not followed",
+    "C02_chain": "proved (round 6): read_xref_from over a chain of ANY number of plain / hybrid revisions returns the sections newest first "
+                 "(table before its XRefStm stream) and visits exactly their positions",
     "C02_table_represents / C02_stream_represents": "proved (round 2): SecRep follows from what the writer wrote",
     "C02_row_types / C02_inuse_types / C02_objstm_index / C02_defaults / C02_literals":
         "proved (round 2) about definitions REGENERATED from the Python source (Gen/Xref.lean)",
